@@ -519,7 +519,7 @@ impl Value {
         }))
     }
 
-    pub fn unary_plus(self, visitor: &mut Visitor, span: Span) -> SassResult<Self> {
+    pub fn unary_plus(self, _visitor: &mut Visitor, span: Span) -> SassResult<Self> {
         Ok(match self {
             Self::Dimension(SassNumber { .. }) => self,
             Self::Calculation(..) => {
@@ -532,14 +532,14 @@ impl Value {
             _ => Self::String(
                 format!(
                     "+{}",
-                    &self.to_css_string(span, visitor.options.is_compressed())?
+                    &self.to_css_string(span, false)?
                 ),
                 QuoteKind::None,
             ),
         })
     }
 
-    pub fn unary_neg(self, visitor: &mut Visitor, span: Span) -> SassResult<Self> {
+    pub fn unary_neg(self, _visitor: &mut Visitor, span: Span) -> SassResult<Self> {
         Ok(match self {
             Self::Calculation(..) => {
                 return Err((
@@ -560,18 +560,18 @@ impl Value {
             _ => Self::String(
                 format!(
                     "-{}",
-                    &self.to_css_string(span, visitor.options.is_compressed())?
+                    &self.to_css_string(span, false)?
                 ),
                 QuoteKind::None,
             ),
         })
     }
 
-    pub fn unary_div(self, visitor: &mut Visitor, span: Span) -> SassResult<Self> {
+    pub fn unary_div(self, _visitor: &mut Visitor, span: Span) -> SassResult<Self> {
         Ok(Self::String(
             format!(
                 "/{}",
-                &self.to_css_string(span, visitor.options.is_compressed())?
+                &self.to_css_string(span, false)?
             ),
             QuoteKind::None,
         ))
